@@ -96,3 +96,11 @@ package wire
 //@ func (*ClientConn).readDownstreamMetadataLoop
 //@   props C07
 //@   assert send: has(c.downstreams.metadata, v.StreamIDAlias) && has(c.downstreams.metadata[v.StreamIDAlias], v.SourceNodeID) && ch == c.downstreams.metadata[v.StreamIDAlias][v.SourceNodeID]
+
+// ---------------------------------------------------------------- C09: lock discipline
+// Every read of a guarded field (and of the contents of a map it holds) happens with the named
+// mutex held (R or W), every write with it held for writing; objects still private to their
+// constructor are exempt.
+//@ guarded[C09] clientUpstreams.mu: acks, aliases, messageWriters
+//@ guarded[C09] clientDownstreams.mu: dps, dpsUnreliable, ackCompletes, metadata, aliases
+//@ guarded[C09] ClientConn.mu: replyCh
